@@ -508,9 +508,20 @@ def search(run, rng, quick):
         crng = np.random.default_rng(case_seed)
         try:
             case = fn(run, crng, quick, case_seed, i)
-        except Exception as e:  # harness-side failure: visible, never a violation
-            run.count(f"harness-error:{name}:{type(e).__name__}")
-            run.cov.setdefault("harness_errors", []).append(f"{name} seed={case_seed}: {type(e).__name__}: {str(e)[:200]}")
+        except Exception as e:  # noqa
+            import traceback
+            frames = traceback.extract_tb(e.__traceback__)
+            if frames and "/renormalizer/" in frames[-1].filename.replace("\\", "/"):
+                # raised inside the library by a call this module did not wrap individually
+                where = frames[-1].name
+                run.count(f"violation:{name}:library-exception")
+                run.violation(f"{name}:library-exception:{where}:{type(e).__name__}",
+                              dict(module="search_c02", generator=name, case_seed=case_seed, icase=i,
+                                   exception=type(e).__name__, message=str(e)[:300],
+                                   traceback=[f"{f.filename}:{f.lineno}:{f.name}" for f in frames[-6:]]))
+            else:   # harness-side failure: visible in the evidence, never a violation
+                run.count(f"harness-error:{name}:{type(e).__name__}")
+                run.cov.setdefault("harness_errors", []).append(f"{name} seed={case_seed}: {type(e).__name__}: {str(e)[:200]}")
             continue
         evaluations += case.n_checks
         run.count("cases:" + name)
